@@ -1,9 +1,9 @@
 (* C09 - a server-initiated channel close affects that channel only.
    This file only pins statements. *)
-From Amq Require Import Lib.Base Gen.Consts Model.Wire Model.Frames Model.OutBuf Model.Collector Model.Slots Model.Core Spec.Slots Spec.Content Proofs.Slots Proofs.OutBuf Proofs.Collector Proofs.CoreContent Proofs.CoreInv Proofs.CoreMore Check.Core Proofs.Examples Model.Sys Proofs.Sys Proofs.SysLive.
+From Amq Require Import Lib.Base Gen.Consts Model.Wire Model.Frames Model.OutBuf Model.Collector Model.Slots Model.Core Spec.Slots Spec.Content Proofs.Slots Proofs.OutBuf Proofs.Collector Proofs.CoreContent Proofs.CoreInv Proofs.CoreMore Check.Core Proofs.Examples Model.Sys Proofs.Sys Proofs.SysLive Lib.RsVal Gen.SrcHandle Proofs.HandleSrc Model.Handle.
 
 (* a successful Channel.Close(n): slot n and its id are gone, exactly Channel.CloseOk(n) is queued, phase and channel-0 state are untouched and every other slot is as before *)
-Theorem C09_effect : forall (n code : N) (text dbg : str) (c c' : core), steady c -> n <> 0 -> process c (FMethod n (MChanClose code text), dbg) = (OOk, c') -> alookup n (c_slots c') = None /\ c_ids c' = snd (remove n (c_ids c)) /\ c_out c' = ob_append (c_out c) (ser_chan_close_ok n) /\ c_phase c' = c_phase c /\ c_ch0 c' = c_ch0 c /\ (forall k : N, k <> n -> alookup k (c_slots c') = alookup k (c_slots c)).
+Theorem C09_effect : forall (n code : N) (text dbg : str) (c c' : core), steady c -> n <> 0 -> process c (FMethod n (MChanClose code text), dbg) = (OOk, c') -> alookup n (c_slots c') = None /\ c_ids c' = snd (Slots.remove n (c_ids c)) /\ c_out c' = ob_append (c_out c) (ser_chan_close_ok n) /\ c_phase c' = c_phase c /\ c_ch0 c' = c_ch0 c /\ (forall k : N, k <> n -> alookup k (c_slots c') = alookup k (c_slots c)).
 Proof. exact chan_close_effect. Qed.
 
 (* for EVERY frame of channel m and every outcome: the slots of all other channels are unchanged *)
@@ -11,7 +11,7 @@ Theorem C09_isolation : forall (f : frame) (dbg : str) (c : core) (o : outcome) 
 Proof. exact frame_other_channels. Qed.
 
 (* the id is available again: an explicit open of it is granted (from the C10 refinement) *)
-Theorem C09_reusable : forall (ids : slots) (n : N), Inv ids -> in_range (cmax ids) n -> fst (insert_some true n (snd (remove n ids))) = ROk n.
+Theorem C09_reusable : forall (ids : slots) (n : N), Inv ids -> in_range (cmax ids) n -> fst (insert_some true n (snd (Slots.remove n ids))) = Slots.ROk n.
 Proof. exact closed_id_reusable. Qed.
 
 (* a wake-up for the closed channel that was already pending is ignored, not an error *)
@@ -23,7 +23,7 @@ Theorem C09_no_panic : forall (c : core) (f : dframe) (o : outcome) (c' : core),
 Proof. exact process_WFs. Qed.
 
 (* THE WHOLE SYSTEM, EVERY SCHEDULE, THE SERVER CLOSING ANY CHANNEL AT ANY MOMENT (Model/Sys.v, action ASrvClose): the guarantees of every channel the server has not closed are what they are without any close - each call returns the answer to its own request, a blocked caller is owed exactly its one reply, nothing of it is lost -; on the closed channel what the calls returned before is still exactly the answers to its own first requests; the I/O thread never finds a reply queue full (a queued reply plus the verdict fit: 2 <= qcap) nor a frame for the slot it dropped; a caller is marked failed only when the I/O thread ended or the server closed ITS channel *)
-Theorem C09_system_isolation : forall (answer : N -> N -> N) (bound qcap : N) (progs : N -> list call), 2 <= qcap -> forall sched : list act, let s := yrun answer bound qcap (init_sys progs) sched in y_fail s = false /\ (forall n : N, let c := y_ch s n in yc_results c = map (answer n) (firstn (length (yc_results c)) (syncs (yc_issued c))) /\ (yc_srv_closed c = false -> yc_wait c = false -> yc_failed c = false -> yc_results c = map (answer n) (syncs (yc_issued c))) /\ (yc_srv_closed c = false -> yc_wait c = true -> exists r : N, syncs (yc_issued c) = firstn (length (yc_results c)) (syncs (yc_issued c)) ++ [r] /\ inflight answer s n = [answer n r]) /\ (length (yc_replyq c) <= 2)%nat /\ yc_issued c ++ yc_prog c = progs n /\ (yc_failed c = true -> y_dead s = true \/ yc_srv_closed c = true)).
+Theorem C09_system_isolation : forall (answer : N -> N -> N) (bound qcap : N) (progs : N -> list call), 2 <= qcap -> forall sched : list act, let s := yrun answer bound qcap (init_sys progs) sched in y_fail s = false /\ (forall n : N, let c := y_ch s n in yc_results c = map (answer n) (firstn (Datatypes.length (yc_results c)) (syncs (yc_issued c))) /\ (yc_srv_closed c = false -> yc_wait c = false -> yc_failed c = false -> yc_results c = map (answer n) (syncs (yc_issued c))) /\ (yc_srv_closed c = false -> yc_wait c = true -> exists r : N, syncs (yc_issued c) = (firstn (Datatypes.length (yc_results c)) (syncs (yc_issued c)) ++ [r])%list /\ inflight answer s n = [answer n r]) /\ (Datatypes.length (yc_replyq c) <= 2)%nat /\ (yc_issued c ++ yc_prog c)%list = progs n /\ (yc_failed c = true -> y_dead s = true \/ yc_srv_closed c = true)).
 Proof. exact sys_own_reply. Qed.
 
 (* ... and once the I/O thread has processed the server's close of channel n (slot gone), a caller blocked on n returns at once - the reply already queued, the verdict ServerClosedChannel, or an error -, and every later call on n fails at once without handing anything over *)
@@ -33,6 +33,10 @@ Proof. exact sys_dead_releases. Qed.
 (* ... and before that, the Close is never lost: from every reachable state with the I/O thread alive a caller blocked on a channel the server has closed can be released by reading what is on the wire and receiving (and callers of the other channels by the usual continuation) *)
 Theorem C09_system_never_stuck : forall (answer : N -> N -> N) (bound qcap : N) (progs : N -> list call), 2 <= qcap -> forall (sched : list act) (n : N), let s := yrun answer bound qcap (init_sys progs) sched in y_dead s = false -> yc_wait (y_ch s n) = true -> exists cont : list act, ~ In ADie cont /\ yc_wait (y_ch (yrun answer bound qcap s cont) n) = false.
 Proof. exact sys_never_stuck. Qed.
+
+(* ... and the translated source of a call (Gen/SrcHandle.v: send, and on a failed send check_recv_for_error with its BLOCKING recv) is the model hstep: the next call on a channel the server closed reports the verdict queued for it (seed C09h replaced that recv by try_recv: the proof breaks, and c04sys finds the window in which the verdict is not queued yet) *)
+Theorem C09_call_source_is_model : forall (c : hcall) (s : hstate) (r : hres) (s' : hstate) (arg : val), hstep c s = Some (r, s') -> gen_call c (enc_state s) arg = (enc_state s', enc_res c r).
+Proof. exact call_source_is_model. Qed.
 
 (* non-vacuity of C09_chan_close_effect: the server closes channel 1 of two: its slot is gone,
    Channel.CloseOk(1) is queued, its consumer and its caller are told, channel 2 is untouched *)
@@ -74,14 +78,15 @@ Proof.
   exists [ASend 1; ADrain 1 1; AWrite 1; ASrvRead; ASrvAnswer 1; ASrvClose 1; ARead; ARead]. vm_compute. reflexivity.
 Qed.
 
-Check C09_effect : forall (n code : N) (text dbg : str) (c c' : core), steady c -> n <> 0 -> process c (FMethod n (MChanClose code text), dbg) = (OOk, c') -> alookup n (c_slots c') = None /\ c_ids c' = snd (remove n (c_ids c)) /\ c_out c' = ob_append (c_out c) (ser_chan_close_ok n) /\ c_phase c' = c_phase c /\ c_ch0 c' = c_ch0 c /\ (forall k : N, k <> n -> alookup k (c_slots c') = alookup k (c_slots c)).
+Check C09_effect : forall (n code : N) (text dbg : str) (c c' : core), steady c -> n <> 0 -> process c (FMethod n (MChanClose code text), dbg) = (OOk, c') -> alookup n (c_slots c') = None /\ c_ids c' = snd (Slots.remove n (c_ids c)) /\ c_out c' = ob_append (c_out c) (ser_chan_close_ok n) /\ c_phase c' = c_phase c /\ c_ch0 c' = c_ch0 c /\ (forall k : N, k <> n -> alookup k (c_slots c') = alookup k (c_slots c)).
 Check C09_isolation : forall (f : frame) (dbg : str) (c : core) (o : outcome) (c' : core), frame_chan f <> 0 -> process c (f, dbg) = (o, c') -> slots_off (frame_chan f) c c'.
-Check C09_reusable : forall (ids : slots) (n : N), Inv ids -> in_range (cmax ids) n -> fst (insert_some true n (snd (remove n ids))) = ROk n.
+Check C09_reusable : forall (ids : slots) (n : N), Inv ids -> in_range (cmax ids) n -> fst (insert_some true n (snd (Slots.remove n ids))) = Slots.ROk n.
 Check C09_stale_wakeup : forall (n : N) (c : core), n <> 0 -> alookup n (c_slots c) = None -> handle_event c (EvChan n) = (OOk, if c_high c <? out_len c then set_need c true else c, []).
 Check C09_no_panic : forall (c : core) (f : dframe) (o : outcome) (c' : core), process c f = (o, c') -> WFs c -> (forall site : N, o <> OPanic site) /\ WFs c'.
-Check C09_system_isolation : forall (answer : N -> N -> N) (bound qcap : N) (progs : N -> list call), 2 <= qcap -> forall sched : list act, let s := yrun answer bound qcap (init_sys progs) sched in y_fail s = false /\ (forall n : N, let c := y_ch s n in yc_results c = map (answer n) (firstn (length (yc_results c)) (syncs (yc_issued c))) /\ (yc_srv_closed c = false -> yc_wait c = false -> yc_failed c = false -> yc_results c = map (answer n) (syncs (yc_issued c))) /\ (yc_srv_closed c = false -> yc_wait c = true -> exists r : N, syncs (yc_issued c) = firstn (length (yc_results c)) (syncs (yc_issued c)) ++ [r] /\ inflight answer s n = [answer n r]) /\ (length (yc_replyq c) <= 2)%nat /\ yc_issued c ++ yc_prog c = progs n /\ (yc_failed c = true -> y_dead s = true \/ yc_srv_closed c = true)).
+Check C09_system_isolation : forall (answer : N -> N -> N) (bound qcap : N) (progs : N -> list call), 2 <= qcap -> forall sched : list act, let s := yrun answer bound qcap (init_sys progs) sched in y_fail s = false /\ (forall n : N, let c := y_ch s n in yc_results c = map (answer n) (firstn (Datatypes.length (yc_results c)) (syncs (yc_issued c))) /\ (yc_srv_closed c = false -> yc_wait c = false -> yc_failed c = false -> yc_results c = map (answer n) (syncs (yc_issued c))) /\ (yc_srv_closed c = false -> yc_wait c = true -> exists r : N, syncs (yc_issued c) = (firstn (Datatypes.length (yc_results c)) (syncs (yc_issued c)) ++ [r])%list /\ inflight answer s n = [answer n r]) /\ (Datatypes.length (yc_replyq c) <= 2)%nat /\ (yc_issued c ++ yc_prog c)%list = progs n /\ (yc_failed c = true -> y_dead s = true \/ yc_srv_closed c = true)).
 Check C09_system_closed_caller_released : forall (answer : N -> N -> N) (bound qcap : N) (progs : N -> list call), 2 <= qcap -> forall (sched : list act) (n : N), let s := yrun answer bound qcap (init_sys progs) sched in y_dead s = true \/ yc_slot_gone (y_ch s n) = true -> yc_wait (y_ch (ystep answer bound qcap s (ARecv n)) n) = false /\ yc_wait (y_ch (ystep answer bound qcap s (ASend n)) n) = yc_wait (y_ch s n) /\ (yc_wait (y_ch s n) = false -> yc_failed (y_ch s n) = false -> yc_prog (y_ch s n) <> [] -> yc_failed (y_ch (ystep answer bound qcap s (ASend n)) n) = true /\ yc_mail (y_ch (ystep answer bound qcap s (ASend n)) n) = yc_mail (y_ch s n)).
 Check C09_system_never_stuck : forall (answer : N -> N -> N) (bound qcap : N) (progs : N -> list call), 2 <= qcap -> forall (sched : list act) (n : N), let s := yrun answer bound qcap (init_sys progs) sched in y_dead s = false -> yc_wait (y_ch s n) = true -> exists cont : list act, ~ In ADie cont /\ yc_wait (y_ch (yrun answer bound qcap s cont) n) = false.
+Check C09_call_source_is_model : forall (c : hcall) (s : hstate) (r : hres) (s' : hstate) (arg : val), hstep c s = Some (r, s') -> gen_call c (enc_state s) arg = (enc_state s', enc_res c r).
 
 Print Assumptions C09_effect.
 Print Assumptions C09_isolation.
@@ -91,6 +96,7 @@ Print Assumptions C09_no_panic.
 Print Assumptions C09_system_isolation.
 Print Assumptions C09_system_closed_caller_released.
 Print Assumptions C09_system_never_stuck.
+Print Assumptions C09_call_source_is_model.
 Print Assumptions C09_example.
 Print Assumptions C09_system_example.
 Print Assumptions C09_system_example_capacity_one_refuted.
